@@ -31,6 +31,10 @@ type Env struct {
 	// Params are per-run parameters that are not drawn from the Chooser
 	// (C19 fault plans; part of the replay file).
 	Params map[string]int
+	// Memo caches reference answers across the fault-plan enumeration of one
+	// base execution (all of which replay the same plan draws).  The worker
+	// resets it for every base.
+	Memo map[string]any
 }
 
 // Violation is a property violation found by a run.
@@ -57,6 +61,10 @@ type Outcome struct {
 	Probes     map[string]int
 	Faults     map[string]int
 	States     []uint64
+	// FaultPlans, set by a base (fault-free) execution of a
+	// fault-enumeration property, lists the parameter sets to re-execute the
+	// same choice log with.
+	FaultPlans []map[string]int
 	// Sample is a human-readable rendering of the run.
 	Sample map[string]any
 }
